@@ -76,7 +76,7 @@ def deltas_cases(draw):
     nt = ndim if concatenate else ndim + 1
     t = draw(st.integers(0, nt - 1))
     target = t - nt if draw(st.booleans()) else t
-    modes = ["edge", "edge", "constant", "symmetric"] + (["reflect"] if T >= 2 else [])
+    modes = ["edge", "edge", "constant", "symmetric"] * 2 + (["reflect", "reflect"] if T >= 2 else []) + ["linear_ramp", "wrap", "mean", "maximum"]
     return {
         "shape": shape,
         "axis": axis,
@@ -104,7 +104,7 @@ def check_deltas(case):
     if ndim < 1 or not -ndim <= axis < ndim or not -nt <= target < nt or nd < 0 or W < 1:
         raise Discard()
     T = shape[axis]
-    if T < 1 or (mode == "reflect" and T < 2) or mode not in post_ref.PAD_MODES:
+    if T < 1 or (mode == "reflect" and T < 2) or mode not in post_ref.PAD_MODES + post_ref.NUMPY_PAD_MODES:
         raise Discard()
     scale = case.get("scale", 1.0)
     if case["dtype"] in ("i16", "i32") and scale < 1:
